@@ -597,24 +597,21 @@ class RZILTransformer(Transformer):
                     ArithmeticType.MUL,
                 )
             )
-        elif assign.assign_type == AssignmentType.ASSIGN_MOD:
-            assign.set_src(
-                ArithmeticOp(
-                    f"op_MOD",
-                    assign.dest,
-                    assign.src,
-                    ArithmeticType.MOD,
-                )
+        elif assign.assign_type in [
+            AssignmentType.ASSIGN_MOD,
+            AssignmentType.ASSIGN_DIV,
+        ]:
+            # Division is done in the common type of both operands (like "dest = dest / src").
+            # It can't be done in the type of the destination, because it would change the result.
+            a, b = self.cast_operands(
+                a=self.promotion_cast(assign.dest),
+                b=self.promotion_cast(assign.src),
+                immutable_a=False,
             )
-        elif assign.assign_type == AssignmentType.ASSIGN_DIV:
-            assign.set_src(
-                ArithmeticOp(
-                    f"op_DIV",
-                    self.promotion_cast(assign.dest),
-                    self.promotion_cast(assign.src),
-                    ArithmeticType.DIV,
-                )
-            )
+            if assign.assign_type == AssignmentType.ASSIGN_MOD:
+                assign.set_src(ArithmeticOp(f"op_MOD", a, b, ArithmeticType.MOD))
+            else:
+                assign.set_src(ArithmeticOp(f"op_DIV", a, b, ArithmeticType.DIV))
         elif assign.assign_type == AssignmentType.ASSIGN_RIGHT:
             assign.set_src(
                 BitOp(
@@ -689,6 +686,7 @@ class RZILTransformer(Transformer):
         name = f"op_{op_type.name}"
         if op_type not in [
             AssignmentType.ASSIGN_MOD,
+            AssignmentType.ASSIGN_DIV,
             AssignmentType.ASSIGN_RIGHT,
             AssignmentType.ASSIGN_LEFT,
         ]:
